@@ -19,14 +19,14 @@ LEVEL = "exploration"
 RULE = (
     "Histories over the operations {open(use_cache, create_cache, rpc in {1, N, N+1, default}, "
     "options dict plain / with nested storage_options / absent), cli-create(adjacent | user dir, "
-    "rpc), delete local cache, delete adjacent cache, reload an earlier returned tree}. Quick: a "
+    "rpc), delete local cache, delete adjacent cache, tear (truncate) the index files of one location, reload an earlier returned tree}. Quick: a "
     "Hypothesis RuleBasedStateMachine (60 machines x <= 12 steps) plus all histories of length "
-    "<= 2 over an 11-operation alphabet; thorough: breadth-first enumeration of ALL histories up "
-    "to length 4 over that alphabet (16104 per product) for a level-1.1 ScanSAR-like product (image files differ only in the scan suffix) and a level-1.5 product. "
+    "<= 2 over a 13-operation alphabet; thorough: breadth-first enumeration of ALL histories up "
+    "to length 4 over that alphabet (30940 per product) for a level-1.1 ScanSAR-like product (image files differ only in the scan suffix) and a level-1.5 product. "
     "Invariants after every step: the returned tree equals the uncached reference for this "
     "step's rpc; the product directory (listing + sha256) is unchanged except index files made "
     "by cli-create; the user cache dir contains exactly the index files the model predicts "
-    "(written only when asked, complete, equal to the reference document); the option dict "
+    "(written only when asked, complete, equal to the reference document; a torn index stays byte for byte as it is until a create_cache=True repairs it); the option dict "
     "passed in deep-equals its pre-call copy; module-level default dicts are still empty; trees "
     "returned by earlier steps still flatten to the same digest. Non-trivial: the history has an "
     "open after a cache-producing step."
@@ -116,6 +116,8 @@ class World:
         self.url = self.prod.url
         self.local = set()  # images with a user-dir index
         self.adjacent = set()
+        self.torn_local = {}  # image -> the torn bytes its user-dir index must keep until repaired
+        self.torn_adjacent = {}
         self.returned = []  # (tree, flat digest reference tag)
         self.product_sha = sha_tree(self.prod.dir)
         self.hash_dir = c07.user_index_path(self.url, self.images[0]).parent
@@ -154,7 +156,17 @@ class World:
         if set(cache) != want_files:
             out.append(harness.disc("user-cache-dir", what, sorted(want_files), sorted(cache)))
         docs = docs_ref
+        for image, torn in self.torn_local.items():
+            p = self.hash_dir / f"{image}.index"
+            if p.is_file() and p.read_bytes() != torn:
+                out.append(harness.disc("user-cache-rewritten-unasked", what, "the torn index left as it is (no cache creation was requested)", "rewritten"))
+        for image, torn in self.torn_adjacent.items():
+            p = self.prod.dir / f"{image}.index"
+            if p.is_file() and p.read_bytes() != torn:
+                out.append(harness.disc("product-dir-modified", what, "the torn adjacent index left as it is", "rewritten"))
         for image in self.local:
+            if image in self.torn_local:
+                continue
             p = self.hash_dir / f"{image}.index"
             if p.is_file():
                 try:
@@ -218,9 +230,13 @@ class World:
             create = op.get("create_cache", False) if opts is not None else False
             if create:
                 for image in self.images:
-                    served_by_cache = use_cache and (image in self.local or image in self.adjacent)
+                    intact_local = image in self.local and image not in self.torn_local
+                    intact_adjacent = image in self.adjacent and image not in self.torn_adjacent
+                    served_by_cache = use_cache and (intact_local or (image not in self.local and intact_adjacent))
                     if not served_by_cache:
+                        # written when asked; a torn index is thereby repaired
                         self.local.add(image)
+                        self.torn_local.pop(image, None)
             if err is not None:
                 out.append(harness.disc("exception", what, "a tree", harness.exc_text(err)))
             else:
@@ -246,6 +262,7 @@ class World:
                     out.append(harness.disc("cli-failed", what, "exit 0", f"exit {code}: {stderr[:120]}"))
                     continue
                 (self.local if op["target"] == "user" else self.adjacent).add(image)
+                (self.torn_local if op["target"] == "user" else self.torn_adjacent).pop(image, None)
         elif kind == "delete_local":
             for image in self.images:
                 (self.hash_dir / f"{image}.index").unlink(missing_ok=True)
@@ -254,10 +271,21 @@ class World:
             except OSError:
                 pass
             self.local.clear()
+            self.torn_local.clear()
+        elif kind == "tear":
+            # an interrupted write: every index file at that location is cut in half
+            for image in self.images:
+                p = (self.hash_dir if op["where"] == "user" else self.prod.dir) / f"{image}.index"
+                if p.is_file():
+                    raw = p.read_bytes()
+                    torn = raw[: max(1, len(raw) // 2)]
+                    p.write_bytes(torn)
+                    (self.torn_local if op["where"] == "user" else self.torn_adjacent)[image] = torn
         elif kind == "delete_adjacent":
             for image in self.images:
                 (self.prod.dir / f"{image}.index").unlink(missing_ok=True)
             self.adjacent.clear()
+            self.torn_adjacent.clear()
         elif kind == "reload_old":
             if self.returned:
                 tree, tag = self.returned[op["index"] % len(self.returned)]
@@ -304,6 +332,8 @@ ALPHABET = [
     {"op": "delete_local"},
     {"op": "delete_adjacent"},
     {"op": "reload_old", "index": 0},
+    {"op": "tear", "where": "user"},
+    {"op": "tear", "where": "adjacent"},
 ]
 
 
@@ -312,6 +342,13 @@ def bfs_cases(max_len):
         for n in range(1, max_len + 1):
             for seq in itertools.product(range(len(ALPHABET)), repeat=n):
                 yield {"level": level, "ops": [ALPHABET[i] for i in seq]}
+        if max_len < 3:
+            # the three-step shapes "produce a cache, disturb it, open": all of them
+            producers = [ALPHABET[1], ALPHABET[3], ALPHABET[6], ALPHABET[7]]
+            disturb = [ALPHABET[8], ALPHABET[9], ALPHABET[11], ALPHABET[12], ALPHABET[7], ALPHABET[6]]
+            opens = [ALPHABET[0], ALPHABET[4], ALPHABET[5], ALPHABET[2]]
+            for a, b, c in itertools.product(producers, disturb, opens):
+                yield {"level": level, "ops": [a, b, c]}
 
 
 op_strategy = st.one_of(
@@ -328,6 +365,7 @@ op_strategy = st.one_of(
     st.fixed_dictionaries({"op": st.just("cli"), "target": st.sampled_from(["adjacent", "user"]), "rpc": st.sampled_from(["1", "2", "default", "N+1"])}),
     st.just({"op": "delete_local"}),
     st.just({"op": "delete_adjacent"}),
+    st.fixed_dictionaries({"op": st.just("tear"), "where": st.sampled_from(["user", "adjacent"])}),
     st.fixed_dictionaries({"op": st.just("reload_old"), "index": st.integers(0, 5)}),
 )
 
@@ -390,7 +428,7 @@ def classify(case):
 
 LEVEL_TEXT = (
     "Model-based stateful testing of open histories: a Hypothesis rule-based state machine and a "
-    "breadth-first enumeration of all bounded histories over an 11-operation alphabet; after every "
+    "breadth-first enumeration of all bounded histories over a 13-operation alphabet; after every "
     "step the returned tree, the product directory, the user cache directory, the caller's option "
     "dicts, the library's default dicts and all earlier trees are checked against a model of the "
     "cache state. Exhaustive up to history length 4 (thorough) / 2 (quick) for two products."
